@@ -613,6 +613,9 @@ func (g *gen) switchStmt(depth int, ctx bctx) *model.Stmt {
 		sw.Var = g.varName()
 	}
 	n := r.Range(1, c.MaxCases)
+	if n > c.Dom+3 {
+		n = c.Dom + 3
+	}
 	hasDefault := r.P(c.PDefault)
 	defPos := -1
 	if hasDefault {
